@@ -156,6 +156,22 @@ def PruneOk : Prop :=
     | .dir _ l _ _ _ => (!l || c.follows v.ent.depth) = true
     | .leaf _ _ _ => False
 
+/-- the same for one visit … -/
+def PruneOkV (v : Visit α) : Prop :=
+  ∀ s, (ev v s).1.prune = true →
+    match v.ent.node with
+    | .dir _ l _ _ _ => (!l || c.follows v.ent.depth) = true
+    | .leaf _ _ _ => False
+
+/-- … and for the visits of one tree: every node as the reference visits it (`mkVisit`) -/
+def PruneOkN (rp : List Name) (d : Nat) : Node α → Prop
+  -- (a link that closes a cycle is diagnosed where links are followed, not visited)
+  | .leaf nm k a => (k == .linkLoop && c.follows d) = false → PruneOkV c ev (mkVisit c rp d (.leaf nm k a))
+  | .dir nm l r a kids => PruneOkV c ev (mkVisit c rp d (.dir nm l r a kids)) ∧ PruneOkK rp (d + 1) kids
+where PruneOkK (rp : List Name) (d : Nat) : List (Node α) → Prop
+  | [] => True
+  | n :: ns => PruneOkN (n.name :: rp) d n ∧ PruneOkK rp d ns
+
 theorem loopA_nil (dfr : List (Ent α)) (A : Acc σ) (hpre : c.depthFirst = false) :
     loopA c ev ⟨none, [], dfr⟩ A = resOf false A := by
   rw [loopA_eq]
@@ -249,7 +265,8 @@ theorem mkVisit_node (rp : List Name) (d : Nat) (n : Node α) : (mkVisit c rp d 
 
 /-- a leaf that is evaluated: whichever way the walk reports it, as long as the entry view is the
     reference's -/
-theorem leaf_eval (hp : c.depthFirst = true ∨ PruneOk c ev) (rp : List Name) (d : Nat) (nm : Name) (k : LeafKind) (a : α)
+theorem leaf_eval (rp : List Name) (d : Nat) (nm : Name) (k : LeafKind) (a : α)
+    (hp : c.depthFirst = true ∨ PruneOkV c ev (mkVisit c rp d (.leaf nm k a)))
     (S : MState α) (A : Acc σ) (kP : Acc σ → Res σ)
     (hno : (k == .linkLoop && c.follows d) = false) :
     evalAt c ev (mkVisit c rp d (.leaf nm k a)) A kP (loopA c ev S) =
@@ -261,7 +278,7 @@ theorem leaf_eval (hp : c.depthFirst = true ∨ PruneOk c ev) (rp : List Name) (
   · unfold evalAt; simp [hd]
   apply evalAt_noprune
   intro s
-  have := hp (mkVisit c rp d (.leaf nm k a)) s
+  have := hp s
   rw [mkVisit_node] at this
   cases hpr : (ev (mkVisit c rp d (.leaf nm k a)) s).1.prune
   · rfl
@@ -276,8 +293,8 @@ theorem leaf_loop (rp : List Name) (d : Nat) (nm : Name) (k : LeafKind) (a : α)
   simp [hyes, hmax, andThen]
 
 mutual
-theorem node_pre (hpre : c.depthFirst = false) (hp : PruneOk c ev) (n : Node α) (rp : List Name)
-    (fs : List (Frame α)) (dfr : List (Ent α)) (A : Acc σ) (hmax : fs.length ≤ c.maxDepth) :
+theorem node_pre (hpre : c.depthFirst = false) (n : Node α) (rp : List Name)
+    (fs : List (Frame α)) (dfr : List (Ent α)) (hp : PruneOkN c ev rp fs.length n) (A : Acc σ) (hmax : fs.length ≤ c.maxDepth) :
     stepA c ev (handleEntry (optsOf c) ⟨none, fs, dfr⟩ rp fs.length n) A =
       andThen (refNode c ev rp fs.length n A) (loopA c ev ⟨none, fs, dfr⟩) := by
   match n with
@@ -303,14 +320,14 @@ theorem node_pre (hpre : c.depthFirst = false) (hp : PruneOk c ev) (n : Node α)
       first
       | exact leaf_loop c ev rp fs.length nm _ a _ A _ hmax (by simp [follows_iff, hf, hD])
       | (refine (stepA_entry2 c ev _ _ _ _ _ A).trans ?_
-         refine Eq.trans ?_ (leaf_eval c ev (Or.inr hp) rp fs.length nm _ a _ A (loopA c ev (skipCurrent ⟨none, fs, dfr⟩)) (by simp [follows_iff, hf, hD]))
+         refine Eq.trans ?_ (leaf_eval c ev rp fs.length nm _ a (Or.inr (hp (by simp [follows_iff, hf, hD]))) _ A (loopA c ev (skipCurrent ⟨none, fs, dfr⟩)) (by simp [follows_iff, hf, hD]))
          congr 1 <;> simp [mkVisit, hf, hD, LeafKind.isLink, follows_iff])
       | (rw [stepA_visit c ev _ _ rfl]
-         refine Eq.trans ?_ (leaf_eval c ev (Or.inr hp) rp fs.length nm _ a _ A (loopA c ev (skipCurrent ⟨none, fs, dfr⟩)) (by simp [follows_iff, hf, hD]))
+         refine Eq.trans ?_ (leaf_eval c ev rp fs.length nm _ a (Or.inr (hp (by simp [follows_iff, hf, hD]))) _ A (loopA c ev (skipCurrent ⟨none, fs, dfr⟩)) (by simp [follows_iff, hf, hD]))
          congr 1 <;> simp [mkVisit, toVisit, hf, hD, LeafKind.isLink, follows_iff])
   | .dir nm l r a kids =>
     rw [refNode_dir_pre c ev hpre]
-    have hk := fun A' h => kids_pre hpre hp kids rp fs dfr A' h
+    have hk := fun A' h => kids_pre hpre kids rp fs dfr hp.2 A' h
     have hb := fun A' => below_pre c ev hpre rp r kids fs dfr A' hk
     simp only [handleEntry, optsOf_cf, hpre, optsOf_fl, optsOf_fr, Bool.false_eq_true, if_false]
     by_cases hn : (!l || c.follow == .always) = true
@@ -345,7 +362,7 @@ theorem node_pre (hpre : c.depthFirst = false) (hp : PruneOk c ev) (n : Node α)
         simp only [hf, Bool.not_true, Bool.or_false, Bool.false_and]
         have hnp : ∀ s, (ev (mkVisit c rp fs.length (.dir nm true r a kids)) s).1.prune = false := by
           intro s
-          have := hp (mkVisit c rp fs.length (.dir nm true r a kids)) s
+          have := hp.1 s
           rw [mkVisit_node, mkVisit_depth, hf] at this
           cases hpr : (ev (mkVisit c rp fs.length (.dir nm true r a kids)) s).1.prune
           · rfl
@@ -362,8 +379,8 @@ theorem node_pre (hpre : c.depthFirst = false) (hp : PruneOk c ev) (n : Node α)
         congr 1
         funext A'
         exact hb A'
-theorem kids_pre (hpre : c.depthFirst = false) (hp : PruneOk c ev) (kids : List (Node α)) (rp : List Name)
-    (fs : List (Frame α)) (dfr : List (Ent α)) (A : Acc σ) (hmax : fs.length + 1 ≤ c.maxDepth) :
+theorem kids_pre (hpre : c.depthFirst = false) (kids : List (Node α)) (rp : List Name)
+    (fs : List (Frame α)) (dfr : List (Ent α)) (hp : PruneOkN.PruneOkK c ev rp (fs.length + 1) kids) (A : Acc σ) (hmax : fs.length + 1 ≤ c.maxDepth) :
     loopA c ev ⟨none, ⟨rp, kids, false⟩ :: fs, dfr⟩ A =
       andThen (refKids c ev rp (fs.length + 1) kids A) (loopA c ev ⟨none, fs, dfr⟩) := by
   match kids with
@@ -374,23 +391,36 @@ theorem kids_pre (hpre : c.depthFirst = false) (hp : PruneOk c ev) (kids : List 
     rw [loopA_eq]
     have h' : ¬ (fs.length + 1 > c.maxDepth) := by omega
     simp only [step, optsOf_cf, hpre, Bool.false_and, Bool.false_eq_true, if_false, List.length_cons, optsOf_max, h']
-    have := node_pre hpre hp n (n.name :: rp) (⟨rp, ns, false⟩ :: fs) dfr A (by simpa using hmax)
+    have := node_pre hpre n (n.name :: rp) (⟨rp, ns, false⟩ :: fs) dfr (by simpa using hp.1) A (by simpa using hmax)
     simp only [List.length_cons] at this
     rw [this, refKids]
     unfold andThen
     split
     · rfl
-    · exact kids_pre hpre hp ns rp fs dfr _ hmax
+    · exact kids_pre hpre ns rp fs dfr hp.2 _ hmax
 end
 
-/-- Pre-order: `process_dir` on a starting point computes exactly the reference traversal. -/
-theorem processRoot_pre (hpre : c.depthFirst = false) (hp : PruneOk c ev) (root : Node α) (acc : σ) :
+mutual
+theorem pruneOkN_of_pruneOk (hp : PruneOk c ev) (rp : List Name) (d : Nat) (n : Node α) : PruneOkN c ev rp d n := by
+  match n with
+  | .leaf nm k a => exact fun _ s h => hp _ s h
+  | .dir nm l r a kids => exact ⟨fun s h => hp _ s h, pruneOkK_of_pruneOk hp rp (d + 1) kids⟩
+theorem pruneOkK_of_pruneOk (hp : PruneOk c ev) (rp : List Name) (d : Nat) (kids : List (Node α)) :
+    PruneOkN.PruneOkK c ev rp d kids := by
+  match kids with
+  | [] => trivial
+  | n :: ns => exact ⟨pruneOkN_of_pruneOk hp (n.name :: rp) d n, pruneOkK_of_pruneOk hp rp d ns⟩
+end
+
+/-- Pre-order: `process_dir` on a starting point computes exactly the reference traversal, as long
+    as a prune request on a visit *of this tree* concerns a directory whose listing the walk pushed. -/
+theorem processRoot_preN (hpre : c.depthFirst = false) (root : Node α) (hp : PruneOkN c ev [] 0 root) (acc : σ) :
     processRoot c ev root acc =
       (let r := refRoot c ev root ⟨acc, 0, 0⟩
        resOf r.1 r.2) := by
   show loopA c ev (MState.init root) ⟨acc, 0, 0⟩ = _
   rw [loopA_eq]
-  have := node_pre c ev hpre hp root [] [] [] ⟨acc, 0, 0⟩ (Nat.zero_le _)
+  have := node_pre c ev hpre root [] [] [] hp ⟨acc, 0, 0⟩ (Nat.zero_le _)
   simp only [List.length_nil] at this
   simp only [step, MState.init]
   rw [this, refRoot]
@@ -399,6 +429,13 @@ theorem processRoot_pre (hpre : c.depthFirst = false) (hp : PruneOk c ev) (root 
   · simp_all
   · rw [loopA_nil c ev [] _ hpre]
     simp_all
+
+/-- Pre-order, for an evaluator that never asks to prune anything but a pushed directory. -/
+theorem processRoot_pre (hpre : c.depthFirst = false) (hp : PruneOk c ev) (root : Node α) (acc : σ) :
+    processRoot c ev root acc =
+      (let r := refRoot c ev root ⟨acc, 0, 0⟩
+       resOf r.1 r.2) :=
+  processRoot_preN c ev hpre root (pruneOkN_of_pruneOk c ev hp [] 0 root) acc
 
 /-! ### post-order (`-depth`) -/
 
@@ -549,10 +586,10 @@ theorem node_post (hpost : c.depthFirst = true) (n : Node α) (rp : List Name)
       first
       | exact leaf_loop c ev rp fs.length nm _ a _ A _ hmax (by simp [follows_iff, hf, hD])
       | (refine (stepA_entry2 c ev _ _ _ _ _ A).trans ?_
-         refine Eq.trans ?_ (leaf_eval c ev (Or.inl hpost) rp fs.length nm _ a _ A (loopA c ev (skipCurrent ⟨none, fs, ds⟩)) (by simp [follows_iff, hf, hD]))
+         refine Eq.trans ?_ (leaf_eval c ev rp fs.length nm _ a (Or.inl hpost) _ A (loopA c ev (skipCurrent ⟨none, fs, ds⟩)) (by simp [follows_iff, hf, hD]))
          congr 1 <;> simp [mkVisit, hf, hD, LeafKind.isLink, follows_iff])
       | (rw [stepA_visit c ev _ _ rfl]
-         refine Eq.trans ?_ (leaf_eval c ev (Or.inl hpost) rp fs.length nm _ a _ A (loopA c ev (skipCurrent ⟨none, fs, ds⟩)) (by simp [follows_iff, hf, hD]))
+         refine Eq.trans ?_ (leaf_eval c ev rp fs.length nm _ a (Or.inl hpost) _ A (loopA c ev (skipCurrent ⟨none, fs, ds⟩)) (by simp [follows_iff, hf, hD]))
          congr 1 <;> simp [mkVisit, toVisit, hf, hD, LeafKind.isLink, follows_iff])
   | .dir nm l r a kids =>
     rw [refNode_dir_post c ev hpost]
